@@ -136,8 +136,28 @@ def psm_frame(
     return df, meta
 
 
-def write_table(df, path: Path, row_group=None):
+def _path_history(path: Path):
+    """Another table lived at this path and was read through mokapot's reader before the real table is written:
+    per-path state inside mokapot (caches keyed by file name) must not leak into the run under test."""
+    try:
+        from mokapot.tabular_data import TabularDataReader
+
+        old = pd.DataFrame({"zz_old_id": ["a", "b", "c"], "zz_old_value": [1.5, 2.5, 3.5]})
+        if path.suffix == ".parquet":
+            old.to_parquet(path, index=False)
+        else:
+            old.to_csv(path, sep="\t", index=False)
+        r = TabularDataReader.from_path(path)
+        r.get_column_names(), r.get_column_types(), r.read()
+        list(r.get_chunked_data_iterator(chunk_size=2))
+    except Exception:  # noqa: BLE001  history only
+        pass
+
+
+def write_table(df, path: Path, row_group=None, history=True):
     path = Path(path)
+    if history and not path.exists():
+        _path_history(path)
     if path.suffix == ".parquet":
         import pyarrow as pa
         import pyarrow.parquet as pq
